@@ -342,6 +342,26 @@ def group_edit(rnd, spec):
 
 
 @keeps_well_formed
+def same_target_group_edit(rnd, spec):
+    """one grouped update that re-points two or three links to the SAME target (two jobs to one server, two patterns to one journey /
+    network / country): the target gets several new referrers within a single update"""
+    O = spec["objects"]
+    kinds = []
+    if len(names_of(spec, "Job")) >= 2 and len(names_of(spec, "Server")) >= 2:
+        kinds.append(("Job", "server", "Server"))
+    if len(names_of(spec, "UsagePattern")) >= 2:
+        kinds += [("UsagePattern", "usage_journey", "UsageJourney"), ("UsagePattern", "network", "Network"), ("UsagePattern", "country", "Country")]
+    rnd.shuffle(kinds)
+    for cls, attr, tcls in kinds:
+        for target in rnd.sample(names_of(spec, tcls), len(names_of(spec, tcls))):
+            movers = [n for n in names_of(spec, cls) if O[n]["params"][attr][1] != target]
+            if len(movers) >= 2:
+                chosen = rnd.sample(movers, min(len(movers), rnd.choice([2, 2, 3])))
+                return {"op": "group", "changes": [{"obj": n, "attr": attr, "value": ["ref", target]} for n in chosen]}
+    return None
+
+
+@keeps_well_formed
 def fill_empty_step_edit(rnd, spec):
     """give its first job(s) to a step whose job list is empty, preferably a job not yet used by the patterns of that step"""
     O = spec["objects"]
@@ -368,8 +388,9 @@ def fill_empty_step_edit(rnd, spec):
 
 
 KINDS = {"fill_empty_step": fill_empty_step_edit, "num": num_edit, "link": link_edit, "list_assign": list_assign_edit, "list_mut": list_mut_edit, "starts": starts_edit,
-         "server_type": server_type_edit, "group": group_edit}
-DEFAULT_MIX = ["num", "num", "num", "link", "link", "list_assign", "list_mut", "list_mut", "starts", "server_type", "group", "fill_empty_step"]
+         "server_type": server_type_edit, "group": group_edit, "same_target_group": same_target_group_edit}
+DEFAULT_MIX = ["num", "num", "num", "link", "link", "list_assign", "list_mut", "list_mut", "starts", "server_type", "group", "fill_empty_step",
+               "same_target_group"]
 
 
 def rand_edit(rnd, spec, mix=None):
